@@ -44,9 +44,15 @@ and `incr_depth`; an include costs `INCLUDE_RECURSION_COST`, a macro call
 `MACRO_RECURSION_COST` (constants regenerated from the sources into `MJ.Gen`).  `outer` is
 threaded as a reader value (the Rust code increments and decrements it around the nested run).
 
-Not modelled (constructs never generated by the correspondence harness): closures of macros over
-enclosing locals, `extends` inside loops/macros/blocks and an `autoescape` block directly inside
-another one (the model answers `unsupported` there).
+Macro closures are modelled for parameterless macros with one free variable (`defMacroV`):
+every frame has a closure slot (`Frame::closure`, opened by the first `Enclose`), an assignment
+in a frame is written through to the frame's closure, a macro value carries the closure it
+captured and its body looks the free variable up there; `perform_include` detaches the frame's
+closure while the included file runs (`take_closure`) and attaches it again (`reset_closure`).
+
+Not modelled: closures opened inside the bodies of macro *calls* (`inMacro` bodies run on a
+fresh context whose heap growth is dropped), `extends` inside loops/macros/blocks and an
+`autoescape` block directly inside another one (the model answers `unsupported` there).
 -/
 namespace MJ.Blocks
 
@@ -73,6 +79,9 @@ inductive Val
   | str (s : String)
   | safe (s : String)                 -- a string marked safe (captured output under an escaping mode)
   | mac (name : Nat) (body : String)   -- the macro `name` whose body is the literal text `body`
+  | macv (name : Nat) (free : Nat) (closure : Nat)
+      -- `{% macro name() %}<mNAME:{{ free }}>{% endmacro %}`: a macro with the free variable
+      -- `free`, bound to closure number `closure` of the render
   | undef                          -- `Value::UNDEFINED` stored in a variable
   | opaque                         -- a macro with a structured body (never printed)
   | module (exports : List (Nat × Val))
@@ -144,6 +153,7 @@ inductive Item
   | emitVar (v : Nat)                                  -- `{{ v }}`
   | setVar (v : Nat) (s : String)                      -- `{% set v = "s" %}`
   | defMacro (v : Nat) (s : String)                    -- `{% macro v() %}s{% endmacro %}`
+  | defMacroV (m w : Nat)                              -- `{% macro m() %}<mM:{{ w }}>{% endmacro %}` (free variable `w`)
   | importAs (t : Nat) (v : Nat)                       -- `{% import t as v %}`
   | fromImport (t : Nat) (name alias : Nat)            -- `{% from t import name as alias %}`
   | emitAttr (v a : Nat)                               -- `{{ v.a }}`
@@ -187,12 +197,49 @@ def lookupVal (v : Nat) : List (Nat × Val) → Option Val
   | [] => none
   | (w, x) :: rest => if w = v then some x else lookupVal v rest
 
+/-- the variable side of the state: `ctx.stack` (top = last), the closure each frame writes
+    through to (`Frame::closure`, set by the first `Enclose` in that frame), and the closures of
+    the render (`state.closures`: region allocated, never removed) -/
+structure Vars where
+  stack : List Frame
+  cls : List (Option Nat)
+  heap : List Frame
+
+namespace Vars
+def length (v : Vars) : Nat := v.stack.length
+/-- `restore_stack_depth` / `pop_frame`: keep the lowest `n` frames -/
+def take (v : Vars) (n : Nat) : Vars := { v with stack := v.stack.take n, cls := v.cls.take n }
+/-- `push_frame` of frames that have no closure yet -/
+def push (v : Vars) (fs : List Frame) : Vars :=
+  { v with stack := v.stack ++ fs, cls := v.cls ++ fs.map (fun _ => none) }
+/-- the context a render starts with: one frame, no closures -/
+def init : Vars := { stack := [[]], cls := [none], heap := [] }
+/-- `Context::new`: no frame at all (`Template::new_state`) -/
+def empty : Vars := { stack := [], cls := [], heap := [] }
+/-- the fresh context of a macro call: base frame + closure frame holding the argument; the
+    closures of the render stay reachable -/
+def macroCtx (v : Vars) (arg : Nat) (val : Val) : Vars :=
+  { stack := [[], [(arg, val)]], cls := [none, none], heap := v.heap }
+/-- `Frame::closure` of the top frame -/
+def topClosure (v : Vars) : Option Nat := (v.cls.reverse.head?).getD none
+def setTopClosure (v : Vars) (c : Option Nat) : Vars :=
+  match v.cls.reverse with
+  | [] => v
+  | _ :: below => { v with cls := (c :: below).reverse }
+end Vars
+
+def modAt (l : List Frame) (i : Nat) (f : Frame → Frame) : List Frame :=
+  match l, i with
+  | [], _ => []
+  | x :: rest, 0 => f x :: rest
+  | x :: rest, i + 1 => x :: modAt rest i f
+
 /-- `state.blocks`, `BlockStack::depth` per name, `loaded_templates`, `ctx.stack` (top = last) -/
 structure St where
   blocks : Nat → List (List Item)
   depth : Nat → Nat
   loaded : List Nat
-  frames : List Frame
+  frames : Vars
 
 /-- what a render is configured with: the root context value and the environment's
     `undefined_behavior` -/
@@ -216,7 +263,7 @@ abbrev Res := Except Err (List String × St)
 abbrev Rec := Option Nat → Bool → Bool → Nat → AE → List Item → St → Res
 
 /-- `check_depth` after one more frame: `depth() > recursion_limit` -/
-def pushFails (outer : Nat) (frames : List Frame) : Bool := decide (outer + (frames.length + 1) > LIMIT)
+def pushFails (outer : Nat) (frames : Vars) : Bool := decide (outer + (frames.length + 1) > LIMIT)
 
 /-- `is_required_block()` -/
 def isRequired : List Item → Bool
@@ -253,19 +300,42 @@ def loadBlocks (env : Env) (t : Nat) (st : St) : Except Err (St × List Item) :=
       | some k => .error [loadErrKind t k]
       | none => .ok ({ st with loaded := t :: st.loaded, blocks := appendBlocks st.blocks T.blocks }, T.layout)
 
-/-- `Context::store`: insert into the locals of the top frame -/
-def store (fs : List Frame) (v : Nat) (x : Val) : List Frame :=
-  match fs.reverse with
-  | [] => []
-  | top :: below => (((v, x) :: top) :: below).reverse
+/-- `Context::store`: insert into the locals of the top frame and, when that frame has a
+    closure, into the closure as well (so macros declared in the frame see later assignments) -/
+def closureWrite (fs : Vars) (v : Nat) (x : Val) : List Frame :=
+  match fs.topClosure with
+  | some c => modAt fs.heap c (fun cl => (v, x) :: cl)
+  | none => fs.heap
+
+def store (fs : Vars) (v : Nat) (x : Val) : Vars :=
+  match fs.stack.reverse with
+  | [] => fs
+  | top :: below =>
+    { fs with stack := (((v, x) :: top) :: below).reverse, heap := closureWrite fs v x }
 
 /-- `Context::load`: frames from the top down, then the root context -/
-def load (rootCtx : Frame) (fs : List Frame) (v : Nat) : Option Val :=
-  match fs.reverse.findSome? (lookupVal v) with
+def load (rootCtx : Frame) (fs : Vars) (v : Nat) : Option Val :=
+  match fs.stack.reverse.findSome? (lookupVal v) with
   | some x => some x
   | none => lookupVal v rootCtx
 
-def topFrame (fs : List Frame) : Frame := (fs.reverse.head?).getD []
+def topFrame (fs : Vars) : Frame := (fs.stack.reverse.head?).getD []
+
+/-- `Instruction::Enclose(w)`: the first enclosed name opens the closure of the frame; a name the
+    closure does not hold yet is copied into it with its current value (undefined if none) -/
+def Vars.openClosure (fs : Vars) : Vars :=
+  match fs.topClosure with
+  | some _ => fs
+  | none => { (fs.setTopClosure (some fs.heap.length)) with heap := fs.heap ++ [[]] }
+
+def enclose (rootCtx : Frame) (fs : Vars) (w : Nat) : Vars :=
+  let fs1 := fs.openClosure
+  match fs1.topClosure with
+  | none => fs1
+  | some c =>
+    match lookupVal w (fs1.heap[c]?.getD []) with
+    | some _ => fs1
+    | none => { fs1 with heap := modAt fs1.heap c (fun cl => (w, (load rootCtx fs1 w).getD .undef) :: cl) }
 
 /-- distinct keys of a frame with their current values (`Locals` is a map) -/
 def dedupKeys : List (Nat × Val) → List (Nat × Val)
@@ -308,18 +378,18 @@ def isAutoesc : Item → Bool
     follow `cfg.ub`: printing one is empty (`null` under Json) or, for `Strict`/`SemiStrict`, an
     `UndefinedError`; an attribute of an undefined value is an error except for `Chainable`;
     iterating one (`|sort`) is an error for `Strict`/`SemiStrict`. -/
-def emitUndef (cfg : Cfg) (quiet : Bool) (ae : AE) (fs : List Frame) :
-    Except Err (List String × List Frame) :=
+def emitUndef (cfg : Cfg) (quiet : Bool) (ae : AE) (fs : Vars) :
+    Except Err (List String × Vars) :=
   if cfg.ub.isStrict then .error [.undefinedError]
   else match ae with
     | .json => .ok (if quiet then [] else ["null"], fs)
     | _ => .ok ([], fs)
 
-def varItem (cfg : Cfg) (quiet : Bool) (ae : AE) (it : Item) (fs : List Frame) :
-    Option (Except Err (List String × List Frame)) :=
+def varItem (cfg : Cfg) (quiet : Bool) (ae : AE) (it : Item) (fs : Vars) :
+    Option (Except Err (List String × Vars)) :=
   let emit (s : String) : List String := if quiet then [] else [s]
   -- `Emit` of an undefined value
-  let undef : Except Err (List String × List Frame) := emitUndef cfg quiet ae fs
+  let undef : Except Err (List String × Vars) := emitUndef cfg quiet ae fs
   match it with
   | .text s => some (.ok (emit s, fs))
   | .required => some (.ok ([], fs))
@@ -335,6 +405,12 @@ def varItem (cfg : Cfg) (quiet : Bool) (ae : AE) (it : Item) (fs : List Frame) :
     | some _ => some (.error [.unsupported])
   | .setVar v s => some (.ok ([], store fs v (.str s)))
   | .defMacro v s => some (.ok ([], store fs v (.mac v s)))
+  | .defMacroV m w =>
+    -- Enclose(w); GetClosure; BuildMacro; StoreLocal(m)
+    let fs1 := enclose cfg.rootCtx fs w
+    match fs1.topClosure with
+    | some c => some (.ok ([], store fs1 m (.macv m w c)))
+    | none => some (.error [.panic])
   | .emitAttr v a =>
     match load cfg.rootCtx fs v with
     | some (.module ex) =>
@@ -356,6 +432,16 @@ def varItem (cfg : Cfg) (quiet : Bool) (ae : AE) (it : Item) (fs : List Frame) :
   | .callVar v =>
     match load cfg.rootCtx fs v with
     | some (.mac _ s) => some (.ok (emit s, fs))
+    | some (.macv m w c) =>
+      -- the body looks `w` up in the macro's closure (`closure_context` of the call's frame)
+      match lookupVal w (fs.heap[c]?.getD []) with
+      | some (.str s) => some (.ok (emit ("<m" ++ toString m ++ ":" ++ fmtStr ae s ++ ">"), fs))
+      | some (.safe s) => some (.ok (emit ("<m" ++ toString m ++ ":" ++ s ++ ">"), fs))
+      | some .undef | none =>
+        match emitUndef cfg quiet ae fs with
+        | .error e => some (.error e)
+        | .ok (o, _) => some (.ok (emit ("<m" ++ toString m ++ ":" ++ String.join o ++ ">"), fs))
+      | some _ => some (.error [.unsupported])
     | some .undef | some (.str _) | some (.safe _) => some (.error [.invalidOperation])   -- value of type … is not callable
     | none => some (.error [.unknownFunction])
     | some _ => some (.error [.unsupported])
@@ -379,7 +465,7 @@ def callBlock (rec : Rec) (disc : Bool) (outer : Nat) (ae : AE) (n : Nat) (st : 
       else if pushFails outer st.frames then .error [.invalidOperation]              -- recursion limit
       else
         let d := st.frames.length
-        match rec (some n) disc false outer ae body { st with frames := st.frames ++ [[]] } with
+        match rec (some n) disc false outer ae body { st with frames := st.frames.push [[]] } with
         | .error e => .error e
         | .ok (o, st') => .ok (o, { st' with frames := st'.frames.take d })
 
@@ -396,7 +482,7 @@ def performSuper (rec : Rec) (cur : Option Nat) (disc : Bool) (outer : Nat) (ae 
         | none => .error [.panic]
         | some body =>
           let fl := st.frames.length
-          match rec (some n) disc false outer ae body { st with depth := setAt st.depth n d, frames := st.frames ++ [[]] } with
+          match rec (some n) disc false outer ae body { st with depth := setAt st.depth n d, frames := st.frames.push [[]] } with
           | .error e => .error (.evalBlock :: e)
           | .ok (o, st') =>
             .ok (o, { st' with depth := setAt st'.depth n (st'.depth n - 1), frames := st'.frames.take fl })
@@ -420,11 +506,15 @@ def performInclude (env : Env) (rec : Rec) (cur : Option Nat) (disc ign : Bool) 
       if outer + INCLUDE_COST + st.frames.length > LIMIT then .error [.invalidOperation]   -- incr_depth
       else
         let fl := st.frames.length
+        -- `take_closure` … `reset_closure`: the included file runs in the includer's frame but
+        -- with the frame's closure detached (it opens a closure of its own if it needs one)
         match rec cur disc false (outer + INCLUDE_COST) T.ae T.layout
-            { st with blocks := prepare T.blocks, depth := fun _ => 0, loaded := [] } with
+            { st with blocks := prepare T.blocks, depth := fun _ => 0, loaded := [],
+                      frames := st.frames.setTopClosure none } with
         | .error e => .error (.badInclude :: e)
         | .ok (o, st') =>
-          .ok (o, { blocks := st.blocks, depth := st.depth, loaded := st.loaded, frames := st'.frames.take fl })
+          .ok (o, { blocks := st.blocks, depth := st.depth, loaded := st.loaded,
+                    frames := (st'.frames.take fl).setTopClosure st.frames.topClosure })
 
 /-- `{% for v in vals %}body{% endfor %}`: PushLoop; per item: clear the loop frame's locals,
     StoreLocal(v), body; PopLoopFrame.  `run` evaluates the body. -/
@@ -433,7 +523,7 @@ def loopItems (run : St → Res) (v : Nat) (vals : List String) (fl : Nat) (st :
     match acc with
     | .error e => .error e
     | .ok (o, s) =>
-      match run { s with frames := s.frames.take fl ++ [[(v, .str val)]] } with
+      match run { s with frames := (s.frames.take fl).push [[(v, Val.str val)]] } with
       | .error e => .error e
       | .ok (o', s') => .ok (o ++ o', s')) (.ok ([], st))
 
@@ -478,7 +568,7 @@ def stepItems (rd : Rd) (rec : Rec) :
       if pushFails rd.outer st.frames then .error [.invalidOperation]
       else
         let fl := st.frames.length
-        match performInclude rd.env rec rd.cur false false rd.outer [t] false { st with frames := st.frames ++ [[]] } with
+        match performInclude rd.env rec rd.cur false false rd.outer [t] false { st with frames := st.frames.push [[]] } with
         | .error e => .error e
         | .ok (_, st') =>
           let m := Val.module (dedupKeys (topFrame st'.frames))
@@ -488,7 +578,7 @@ def stepItems (rd : Rd) (rec : Rec) :
       if pushFails rd.outer st.frames then .error [.invalidOperation]
       else
         let fl := st.frames.length
-        match performInclude rd.env rec rd.cur true false rd.outer [t] false { st with frames := st.frames ++ [[]] } with
+        match performInclude rd.env rec rd.cur true false rd.outer [t] false { st with frames := st.frames.push [[]] } with
         | .error e => .error e
         | .ok (_, st') =>
           let x := (lookupVal name (topFrame st'.frames)).getD .undef
@@ -498,7 +588,7 @@ def stepItems (rd : Rd) (rec : Rec) :
       else if pushFails rd.outer st.frames then .error [.invalidOperation]
       else
         let fl := st.frames.length
-        match loopItems (rec rd.cur disc ext rd.outer rd.ae body) v vals fl { st with frames := st.frames ++ [[]] } with
+        match loopItems (rec rd.cur disc ext rd.outer rd.ae body) v vals fl { st with frames := st.frames.push [[]] } with
         | .error e => .error e
         | .ok (o, s) => continue_ (.ok (o, { s with frames := s.frames.take fl }))
     | .inMacro m arg val body =>
@@ -511,7 +601,7 @@ def stepItems (rd : Rd) (rec : Rec) :
         let outer' := rd.outer + st1.frames.length + MACRO_COST
         if outer' + 2 > LIMIT then .error [.invalidOperation]
         else
-          match rec none false false outer' rd.ae body { st1 with frames := [[], [(arg, .str val)]] } with
+          match rec none false false outer' rd.ae body { st1 with frames := st1.frames.macroCtx arg (.str val) } with
           | .error e => .error e
           | .ok (o, _) => continue_ (.ok (if disc then [] else o, st1))
     | .badTarget => .error [.invalidOperation]     -- template name was not a string
@@ -543,7 +633,7 @@ def evalImpl (env : Env) (rootCtx : Cfg) : Nat → Rec
 
 /-- the state `Template::render` starts from (`State::new` + `prepare_blocks`) -/
 def initSt (T : Template) : St :=
-  { blocks := prepare T.blocks, depth := fun _ => 0, loaded := [], frames := [[]] }
+  { blocks := prepare T.blocks, depth := fun _ => 0, loaded := [], frames := Vars.init }
 
 /-- `Template::render` of template `main` -/
 def render (env : Env) (rootCtx : Cfg) (fuel : Nat) (main : Nat) : Except Err (List String) :=
@@ -583,7 +673,7 @@ def blockOnFreshState (env : Env) (cfg : Cfg) (fuel : Nat) (main n : Nat) : Exce
     match T.loadErr with
     | some k => .error [loadErrKind main k]
     | none =>
-    match callBlock (evalImpl env { cfg with rootCtx := [] } fuel) false 0 T.ae n { initSt T with frames := [] } with
+    match callBlock (evalImpl env { cfg with rootCtx := [] } fuel) false 0 T.ae n { initSt T with frames := Vars.empty } with
     | .error e => .error e
     | .ok (o, _) => .ok o
 
